@@ -121,7 +121,7 @@ def run(ctx):
     opts = [(3, 1, 0), (3, 0, 0), (3, 1, 1), (3, 0, 1)]           # (version, strtbl, keep)
     more = [(v, st, kw) for v in (0, 1, 2) for st in (0, 1) for kw in (0, 1)]
 
-    a6, _ = common.run_lines(h06, ["%s 3 1 1 0" % x.hex() for _, x in srcs])
+    a6, _ = common.run_lines(h06, ["%s 3 1 1 0" % x.hex() for _, x in srcs], timeout=1200)
     info = []
     for a in a6:
         if a and a.startswith("T OK"):
@@ -142,7 +142,7 @@ def run(ctx):
         return L if not [l for l in tj["langs"] if l["id"] == L][0]["pub_text"] else 0
 
     def x2w(items):          # [(doc, (v, st, kw))]
-        a, cr = common.run_lines(h01, [cc.x2w_line(d, version=o[0], strtbl=o[1], keep=o[2], dump=1) for d, o in items])
+        a, cr = common.run_lines(h01, [cc.x2w_line(d, version=o[0], strtbl=o[1], keep=o[2], dump=1) for d, o in items], timeout=1200)
         out = []
         for r in a:
             p = cc.parse_answer(r)
@@ -150,7 +150,7 @@ def run(ctx):
         return out, cr
 
     def w2x(items):          # [(wbxml, keep, lang)]
-        a, cr = common.run_lines(h01, [cc.w2x_line(w, lang=L, gen=0, keep=k, dump=1) for w, k, L in items])
+        a, cr = common.run_lines(h01, [cc.w2x_line(w, lang=L, gen=0, keep=k, dump=1) for w, k, L in items], timeout=1200)
         out = []
         for r in a:
             p = cc.parse_answer(r)
